@@ -130,7 +130,21 @@ func sliceOrigin(f *ssa.Function, v ssa.Value, depth int) *ssa.MakeSlice {
 	return nil
 }
 
+// activeSubst: while the comparison inside a predicate helper is looked at in place of the helper call
+// (hasDominatingTest), the helper's parameters stand for the call's arguments.
+var activeSubst map[ssa.Value]ssa.Value
+
+func substituted(v ssa.Value) ssa.Value {
+	if activeSubst != nil {
+		if s, ok := activeSubst[v]; ok {
+			return s
+		}
+	}
+	return v
+}
+
 func sameAddr(a, b ssa.Value) bool {
+	a, b = substituted(a), substituted(b)
 	if a == b {
 		return true
 	}
@@ -148,6 +162,7 @@ func sameAddr(a, b ssa.Value) bool {
 }
 
 func sameValue(a, b ssa.Value) bool {
+	a, b = substituted(a), substituted(b)
 	if a == b {
 		return true
 	}
@@ -547,8 +562,71 @@ func hasDominatingTest(v ssa.Value, b *ssa.BasicBlock, pred func(cond ssa.Value,
 		if pred(ifi.Cond, arm == 0) {
 			return true
 		}
+		// the test may be the call of a small predicate helper (`if s.lacksBytes(n)`): look at the comparison it
+		// returns, with its parameters standing for the arguments
+		cond, truth := ifi.Cond, arm == 0
+		for {
+			u, ok := cond.(*ssa.UnOp)
+			if !ok || u.Op != token.NOT {
+				break
+			}
+			cond, truth = u.X, !truth
+		}
+		if call, ok := cond.(*ssa.Call); ok {
+			if cmp, neg, subst := predicateComparison(call); cmp != nil {
+				if neg {
+					truth = !truth
+				}
+				activeSubst = subst
+				hit := pred(cmp, truth)
+				activeSubst = nil
+				if hit {
+					return true
+				}
+			}
+		}
 	}
 	return false
+}
+
+// predicateComparison: call is a static call of a repository function with a single bool result whose body is one
+// block returning a comparison (possibly negated); returns that comparison and the parameter substitution.
+func predicateComparison(call *ssa.Call) (*ssa.BinOp, bool, map[ssa.Value]ssa.Value) {
+	h := call.Call.StaticCallee()
+	if h == nil || len(h.Blocks) != 1 || h.Signature.Results().Len() != 1 || len(call.Call.Args) != len(h.Params) {
+		return nil, false, nil
+	}
+	if bt, ok := h.Signature.Results().At(0).Type().Underlying().(*types.Basic); !ok || bt.Kind() != types.Bool {
+		return nil, false, nil
+	}
+	blk := h.Blocks[0]
+	ret, ok := blk.Instrs[len(blk.Instrs)-1].(*ssa.Return)
+	if !ok || len(ret.Results) != 1 {
+		return nil, false, nil
+	}
+	v := ret.Results[0]
+	neg := false
+	for {
+		u, ok := v.(*ssa.UnOp)
+		if !ok || u.Op != token.NOT {
+			break
+		}
+		v, neg = u.X, !neg
+	}
+	cmp, ok := v.(*ssa.BinOp)
+	if !ok {
+		return nil, false, nil
+	}
+	switch cmp.Op {
+	case token.LSS, token.LEQ, token.GTR, token.GEQ, token.EQL, token.NEQ:
+	default:
+		return nil, false, nil
+	}
+	subst := map[ssa.Value]ssa.Value{}
+	for i, p := range h.Params {
+		subst[p] = call.Call.Args[i]
+	}
+	return cmp, neg, subst
 }
 
 func nonNegative(v ssa.Value) bool {
@@ -1075,6 +1153,14 @@ func lowerBoundAt(v ssa.Value, b *ssa.BasicBlock, depth int) (int64, bool) {
 		have = true
 	}
 	switch x := v.(type) {
+	case *ssa.Extract:
+		// n, err := helper(…): on the way where err was tested nil, n is one of the values the helper returns
+		// together with a nil error
+		if call, ok := x.Tuple.(*ssa.Call); ok && x.Index == 0 {
+			if lo, ok := okResultLowerBound(call, b); ok {
+				best, have = lo, true
+			}
+		}
 	case *ssa.Convert:
 		if typeBits(x.Type()) >= typeBits(x.X.Type()) || nonNegative(x) {
 			if lb, ok := lowerBoundAt(x.X, b, depth+1); ok && typeBits(x.Type()) >= typeBits(x.X.Type()) {
@@ -2680,8 +2766,24 @@ func invCursorWithinLen(c *Ctx, r *Report, key string) bool {
 				if id == nil || len(id.Instrs) == 0 {
 					continue
 				}
-				if ifi, isIf := id.Instrs[len(id.Instrs)-1].(*ssa.If); isIf && mentionsLen(ifi.Cond) {
-					ok = true
+				if ifi, isIf := id.Instrs[len(id.Instrs)-1].(*ssa.If); isIf {
+					if mentionsLen(ifi.Cond) {
+						ok = true
+					}
+					// the test may be a predicate helper on the reader (`if s.lacksBytes(n)`)
+					cond := ifi.Cond
+					for {
+						u, isNot := cond.(*ssa.UnOp)
+						if !isNot || u.Op != token.NOT {
+							break
+						}
+						cond = u.X
+					}
+					if call, isCall := cond.(*ssa.Call); isCall {
+						if cmp, _, _ := predicateComparison(call); cmp != nil && mentionsLen(cmp) {
+							ok = true
+						}
+					}
 				}
 			}
 			// clamped bound: compared with a phi that was clamped to len
@@ -3122,4 +3224,89 @@ func storedBetween(f *ssa.Function, addr ssa.Value, from *ssa.BasicBlock, use ss
 		}
 	}
 	return false
+}
+
+// okResultLowerBound: call is a static call of a repository function returning (integer, error); b is dominated by a
+// test of that call's error result against nil whose other arm rejects. Returns the smallest constant the function
+// returns together with a nil error.
+func okResultLowerBound(call *ssa.Call, b *ssa.BasicBlock) (int64, bool) {
+	h := call.Call.StaticCallee()
+	if h == nil || len(h.Blocks) == 0 || h.Signature.Results().Len() != 2 || h.Signature.Results().At(1).Type().String() != "error" {
+		return 0, false
+	}
+	// the error of this very call is tested on the way to b
+	tested := false
+	if call.Referrers() != nil {
+		for _, ref := range *call.Referrers() {
+			ex, ok := ref.(*ssa.Extract)
+			if !ok || ex.Index != 1 || ex.Referrers() == nil {
+				continue
+			}
+			for _, r2 := range *ex.Referrers() {
+				bo, ok := r2.(*ssa.BinOp)
+				if !ok || (bo.Op != token.NEQ && bo.Op != token.EQL) || bo.Referrers() == nil {
+					continue
+				}
+				for _, r3 := range *bo.Referrers() {
+					ifi, ok := r3.(*ssa.If)
+					if !ok {
+						continue
+					}
+					// the arm taken when err != nil rejects, and the other arm dominates b
+					bad, good := ifi.Block().Succs[0], ifi.Block().Succs[1]
+					if bo.Op == token.EQL {
+						bad, good = good, bad
+					}
+					if blockRejects(bad) && (good == b || good.Dominates(b)) {
+						tested = true
+					}
+				}
+			}
+		}
+	}
+	if !tested {
+		return 0, false
+	}
+	best, have := int64(0), false
+	for _, hb := range h.Blocks {
+		if len(hb.Instrs) == 0 {
+			continue
+		}
+		ret, ok := hb.Instrs[len(hb.Instrs)-1].(*ssa.Return)
+		if !ok || len(ret.Results) != 2 {
+			continue
+		}
+		if ec, isC := ret.Results[1].(*ssa.Const); !isC || !ec.IsNil() {
+			continue // returned with an error (or an error we cannot see to be nil: be conservative below)
+		}
+		cs, ok := constSet(ret.Results[0], 0)
+		if !ok {
+			return 0, false
+		}
+		lo, _ := minMax(cs)
+		if !have || lo < best {
+			best, have = lo, true
+		}
+	}
+	// a return with a non-constant error may also be nil: then nothing is known
+	for _, hb := range h.Blocks {
+		if len(hb.Instrs) == 0 {
+			continue
+		}
+		if ret, ok := hb.Instrs[len(hb.Instrs)-1].(*ssa.Return); ok && len(ret.Results) == 2 {
+			if _, isC := ret.Results[1].(*ssa.Const); !isC {
+				if _, isMk := ret.Results[1].(*ssa.MakeInterface); !isMk {
+					ok := false
+					if ec, isCall := ret.Results[1].(*ssa.Call); isCall {
+						n := calleeName(ec.Common())
+						ok = strings.HasSuffix(n, "fmt.Errorf") || strings.HasSuffix(n, "errors.New")
+					}
+					if !ok {
+						return 0, false
+					}
+				}
+			}
+		}
+	}
+	return best, have
 }
